@@ -23,13 +23,12 @@ ASSUMPTIONS = ["state = vlib.refsim on reference + ansatz (+ projective) circuit
                "encoded N / Sz / S^2 for the oracle are obtained from fermion_to_qubit_mapping with explicit, correct arguments (C03/C12)",
                "operator_expectation is called with ref_state=solver.reference_circuit, as the repository's own callers do"]
 ANCHORS = [
-    ("tangelo/algorithms/variational/vqe_solver.py", "173-246", "Hamiltonian construction / penalties / ansatz set-up"),
+    ("tangelo/algorithms/variational/vqe_solver.py", "build", "Hamiltonian construction / penalties / ansatz set-up"),
     ("tangelo/algorithms/variational/vqe_solver.py", "energy_estimation", "energy = backend expectation (+ deflation overlaps)"),
     ("tangelo/algorithms/variational/vqe_solver.py", "operator_expectation", "temporary swap of the target operator"),
-    ("tangelo/algorithms/variational/vqe_solver.py", "129-163", "reference-state override handling"),
+    ("tangelo/algorithms/variational/vqe_solver.py", "__init__", "reference-state override handling"),
 ]
-REQUIRED = {"energy_is_expectation": 60, "energy_is_variational": 60, "symmetry_expectation": 100, "hamiltonian_restored": 100,
-            "deflation_overlap": 10, "hf_energy_at_zero": 4}
+REQUIRED = {"energy_is_expectation": 60, "energy_is_variational": 60, "symmetry_expectation": 100, "hamiltonian_restored": 100, "deflation_overlap": 10, "hf_energy_at_zero": 3}
 BUDGET = {"quick": 300, "thorough": 3000}
 TOL = 1e-7
 
